@@ -41,11 +41,20 @@ type epRow struct {
 	arg, code, validator string
 	pre, post            int
 	calls                []string
+	callS                string   // engine rows: the engine call expression
+	preS, postS          []string // engine rows: the source text of every statement in front of / behind the engine statement
 }
 
 func exprStr(fset *token.FileSet, e ast.Expr) string {
 	var b bytes.Buffer
 	_ = printer.Fprint(&b, fset, e)
+	return strings.Join(strings.Fields(b.String()), " ")
+}
+
+// stmtStr: the statement's source text, comments dropped, white space normalised.
+func stmtStr(fset *token.FileSet, s ast.Stmt) string {
+	var b bytes.Buffer
+	_ = printer.Fprint(&b, fset, s)
 	return strings.Join(strings.Fields(b.String()), " ")
 }
 
@@ -289,7 +298,14 @@ func classify(fset *token.FileSet, fd *ast.FuncDecl) epRow {
 			if !isTypPrelude(fset, p) && touchesInputOrReturns(p) {
 				row.pre++
 			}
+			if !isTypPrelude(fset, p) {
+				row.preS = append(row.preS, stmtStr(fset, p))
+			}
 		}
+		for _, p := range body[i+1:] {
+			row.postS = append(row.postS, stmtStr(fset, p))
+		}
+		row.callS = exprStr(fset, ec)
 		// post: what follows the engine statement (result conversion). `return engine.F(...)`, and a
 		// switch whose clauses all end in `return engine.F(...)`, hand the engine's answer on unchanged.
 		row.post = len(body) - i - 1
@@ -466,7 +482,20 @@ func genEntryPoints(repo, outPath string) error {
 		}
 		b.WriteString(fmt.Sprintf("  ⟨%s, %s, %s, %s⟩%s\n", q(r.ty), q(r.file), q(r.ep), shape, sep))
 	}
-	b.WriteString("]\n\nend Gozod.Gen.EntryPoints\n")
+	b.WriteString("]\n\n/-- The statements around the engine call of every entry point that has any (source text, white space normalised). -/\n")
+	b.WriteString("def stmts : List Stmts := [\n")
+	first := true
+	for _, r := range rows {
+		if r.shape != "engine" || len(r.preS)+len(r.postS) == 0 {
+			continue
+		}
+		if !first {
+			b.WriteString(",\n")
+		}
+		first = false
+		b.WriteString(fmt.Sprintf("  ⟨%s, %s, %s,\n    [%s],\n    [%s]⟩", q(r.ty), q(r.ep), q(r.callS), strings.Join(mapStr(r.preS, q), ",\n     "), strings.Join(mapStr(r.postS, q), ",\n     ")))
+	}
+	b.WriteString("\n]\n\nend Gozod.Gen.EntryPoints\n")
 	old, _ := os.ReadFile(outPath)
 	if string(old) == b.String() {
 		return nil
